@@ -190,10 +190,52 @@ theorem project_kd_header_v2 (plist : Bytes → Option PView) (ctx : List (Strin
   simp only [RM.pure_bind', project_toHeaderV2, List.length_map]
   rfl
 
+/-! ### kd_header_v3 -/
+
+theorem RM.bind_congr' {α β : Type} (m : RM α) (f g : α → RM β) (h : ∀ a, f a = g a) : m >>= f = m >>= g := by
+  have : f = g := funext h
+  rw [this]
+
+/-- `Prefixed`'s sub-stream handed to `BplistAdapter(GreedyBytes)`: the whole payload goes to `plistlib.loads`. -/
+theorem onSub_bplist (plist : Bytes → Option PView) (b : Bytes) :
+    onSub b (greedyBytesRM >>= fun a => decodePlist plist (CVal.bytes a)) =
+      (match plist b with
+       | none => RM.throw' .valueError
+       | some _ => pure (CVal.plist b)) := by
+  funext r
+  show ((RM.bind' greedyBytesRM (fun a => decodePlist plist (CVal.bytes a)) (Reader.ofBytes b)).1, r) = _
+  unfold RM.bind' greedyBytesRM
+  have hr : (Reader.ofBytes b).rest = b := rfl
+  simp only [hr, decodePlist]
+  cases plist b <;> rfl
+
+theorem toHeaderV3_struct (a1 a2 a3 a4 a5 a6 a7 a8 a9 a10 a11 a12 : Nat) (p : Bytes) :
+    CVal.toHeaderV3 (.struct [("tag", .int a1), ("sub_tag", .int a2), ("length", .int a3), ("timebase_numer", .int a4),
+      ("timebase_denom", .int a5), ("timestamp", .int a6), ("walltime_secs", .int a7), ("walltime_usecs", .int a8),
+      ("timezone_minuteswest", .int a9), ("timezone_dst", .int a10), ("flags", .int a11), ("tag2", .int a12),
+      ("cpu_info", .plist p)]) = some ([a1, a2, a3, a4, a5, a6, a7, a8, a9, a10, a11, a12], p) := rfl
+
+theorem project_kd_header_v3 (env : Env) (ctx : List (String × CVal)) :
+    project CVal.toHeaderV3 (Expected.kd_header_v3.parse env ctx) = headerV3Inner env.plist := by
+  simp only [Expected.kd_header_v3, Con.parse, Fields.parse, mapRM_bind, List.nil_append, List.cons_append,
+    RM.bind_assoc', project_bind]
+  unfold headerV3Inner
+  simp only [v3FieldSizes, readFields, int32ul, int64ul, prefixedBytes, RM.bind_assoc', RM.pure_bind']
+  iterate 14 (apply RM.bind_congr'; intro _)
+  rw [onSub_bplist]
+  rename_i payload
+  cases plist_payload : env.plist payload with
+  | none => rfl
+  | some v =>
+    simp only [RM.pure_bind']
+    exact project_pure _ _ _ (toHeaderV3_struct ..)
+
 /-! ### what the module binds the names to -/
 
 theorem decl_kd_threadmap : Expected.module.decl "kd_threadmap" = Expected.kd_threadmap := by decide
 
 theorem decl_kd_header_v2 : Expected.module.decl "kd_header_v2" = kd_header_v2R := by decide
+
+theorem decl_kd_header_v3 : Expected.module.decl "kd_header_v3" = Expected.kd_header_v3 := by decide
 
 end KdVerif.PyIRCn
